@@ -171,3 +171,10 @@ impl<I: Interner> Table<I> {
 impl AnswerIndex {
     pub(crate) const ZERO: AnswerIndex = AnswerIndex { value: 0 };
 }
+
+#[cfg(chalk_verif)]
+impl AnswerIndex {
+    pub(crate) fn verif_value(self) -> usize {
+        self.value
+    }
+}
